@@ -239,6 +239,17 @@ type Odd struct {
 	P *complex128
 }
 
+// Empty has size zero: slices of it have elements without extent.
+type Empty struct{}
+
+type Empties struct {
+	E Empty
+	L []Empty
+	M map[string]Empty
+	P *Empty
+	N int
+}
+
 // Arrays can be folded (by reflection) but not unfolded.
 type Triple [3]int16
 
@@ -865,6 +876,17 @@ var Catalogue = []TypeEntry{
 		return Shapes{One: genShape(c), M: genMap(c, genShape), L: genSlice(c, genShape), N: ShapeMap(genMap(c, genShape)),
 			In: map[string]Shape{"in." + GenKey(c, 6): genShape(c)}}
 	})),
+	mk("[]Empty", false, func(c *simkit.Choices) []Empty { return genSlice(c, func(*simkit.Choices) Empty { return Empty{} }) }),
+	mk("map[string]Empty", true, func(c *simkit.Choices) map[string]Empty {
+		return genMap(c, func(*simkit.Choices) Empty { return Empty{} })
+	}),
+	mk("Empties", true, func(c *simkit.Choices) Empties {
+		e := Empties{L: genSlice(c, func(*simkit.Choices) Empty { return Empty{} }), M: genMap(c, func(*simkit.Choices) Empty { return Empty{} }), N: c.N(100)}
+		if c.Bool() {
+			e.P = &Empty{}
+		}
+		return e
+	}),
 	foldOnly(mk("[3]int", false, func(c *simkit.Choices) [3]int { return [3]int{int(genI(c)), c.N(10), -c.N(10)} })),
 	foldOnly(mk("ArrHolder", true, func(c *simkit.Choices) ArrHolder {
 		return ArrHolder{A: [2]string{genStr(c), genStr(c)}, B: [3]Inner{genInner(c), {}, genInner(c)},
@@ -1202,6 +1224,7 @@ var families = map[string][]string{
 	"ints": {"[]int8", "[]int16", "[]int32", "[]int64", "[]uint8", "[]uint16", "[]uint32", "[]uint64", "[]uint", "[]int", "SmallPtrs", "[3]int", "ArrHolder",
 		"map[string]int8", "map[string]int16", "map[string]int32", "map[string]int64", "map[string]uint", "map[string]uint8", "map[string]uint16", "map[string]uint32", "map[string]uint64", "map[string]float32", "map[string]float64", "[]float32", "[]float64"},
 	"kv":     {"OrderedKV", "WithKV", "map[string]string", "Strs"},
+	"empty":  {"[]Empty", "map[string]Empty", "Empties", "[]interface{}", "map[string]interface{}"},
 	"shape":  {"map[string]Shape", "[]Shape", "Shapes", "map[string]interface{}", "[]interface{}"},
 	"folder": {"WithFolder", "InlineFolder", "InlineIfc", "InlineMap", "InlineTyped", "map[string]interface{}"},
 	"local":  {"local-A.record", "local-B.record"},
@@ -1209,7 +1232,7 @@ var families = map[string][]string{
 	"ifc":    {"interface{}", "[]interface{}", "map[string]interface{}", "[]map[string]interface{}", "Strs", "Tagged"},
 }
 
-var familyNames = []string{"wrap", "inline", "ints", "shape", "packed", "inner", "named", "score", "simple", "kv", "folder", "local", "ifc"}
+var familyNames = []string{"wrap", "inline", "ints", "shape", "empty", "packed", "inner", "named", "score", "simple", "kv", "folder", "local", "ifc"}
 
 // PickRelated draws n types; half of the time all from one family (types
 // that contain each other), else independently.
